@@ -56,6 +56,10 @@ def rb_cfgs():
             # quick: every operation on the empty and the one-extent tree, read-only operations on all shapes
             d["_tier"] = "quick" if (k <= 1 or name in READONLY) else "thorough"
             if name == "SET_RANGE":
+                # the full step (real rb_insert_extent under rb_set_bmap_range) ran out of memory at every
+                # shape (18 GB, thorough run): it is decided compositionally instead -- rb_setrange (run
+                # decomposition, rb_insert_extent cut) + rb[OP=MARK_RANGE] (the insert itself)
+                continue
                 # every 1->0 transition of the source buffer is one rb_insert_extent: 4 positions
                 d["N"] = 4
                 d["_unwindset"] = rb_unwind(k, 4)
